@@ -6,15 +6,15 @@ import (
 	"fmt"
 	"log"
 	"runtime/debug"
+	"sync"
 	"sync/atomic"
 	"time"
 )
 
 var (
-	ErrServiceAlreadyStarted   = fmt.Errorf("recoverable service already started")
-	ErrServiceNotRunning       = fmt.Errorf("recoverable service not running")
-	errServiceStopped          = fmt.Errorf("service stopped")
-	errServiceContextCancelled = fmt.Errorf("service context cancelled")
+	ErrServiceAlreadyStarted = fmt.Errorf("recoverable service already started")
+	ErrServiceNotRunning     = fmt.Errorf("recoverable service not running")
+	errServiceStopped        = fmt.Errorf("service stopped")
 )
 
 const (
@@ -37,6 +37,7 @@ func NewRecoverer(svc Recoverable, logger *log.Logger) *recoverer {
 		service:  svc,
 		log:      logger,
 		stopped:  make(chan error, 1),
+		chClose:  make(chan struct{}),
 		coolDown: PanicRestartWait,
 	}
 }
@@ -50,11 +51,17 @@ type recoverer struct {
 	log     *log.Logger
 
 	// created by constructor
-	stopped  chan error
+	// stopped carries the result of the service goroutine to the watcher; the
+	// capacity of one is reserved for that single message
+	stopped chan error
+	// chClose is closed by Close and tells the watcher to exit; a closed channel
+	// cannot be lost the way a non-blocking send into stopped could
+	chClose  chan struct{}
 	coolDown time.Duration
 
 	// internal state
-	running atomic.Bool
+	running   atomic.Bool
+	closeOnce sync.Once
 }
 
 // Start starts the recoverable service and the recovery watcher and returns an
@@ -80,10 +87,7 @@ func (m *recoverer) Close() error {
 
 	err := m.service.Close()
 
-	select {
-	case m.stopped <- errServiceContextCancelled:
-	default:
-	}
+	m.closeOnce.Do(func() { close(m.chClose) })
 
 	return err
 }
@@ -100,12 +104,10 @@ func (m *recoverer) serviceStart(ctx context.Context) {
 					<-time.After(m.coolDown)
 					go m.recoverableStart(ctx)
 				}
-
-				if errors.Is(err, errServiceContextCancelled) {
-					m.running.Store(false)
-					return
-				}
 			}
+		case <-m.chClose:
+			m.running.Store(false)
+			return
 		case <-ctx.Done():
 			m.running.Store(false)
 			return
